@@ -515,3 +515,76 @@ package fsutil
 //@   at call doubleWalkDiff.changeFn: stat_as_sent: k != ChangeKindDelete ==> f != nil && f != f2copy.stat
 //@   at call doubleWalkDiff.changeFn: only_if_changed: k == ChangeKindModify ==> !same
 //@   at call doubleWalkDiff.changeFn: path_of_source: k != ChangeKindDelete ==> p == f2copy.path
+
+// ---------------------------------------------------------------------------
+// stat_unix.go, stat.go, fs.go (C09)
+// ---------------------------------------------------------------------------
+
+// owner from the lstat result; device numbers for device nodes; among the
+// non-directories sharing an inode the first one seen keeps an empty link name
+// and is recorded, every later one names the recorded first path and leaves the
+// record alone
+//@ pred specLinked(fi os.FileInfo, seenFiles map[uint64]string) bool = seenFiles != nil && asptr(fi.Sys(), syscall.Stat_t).Nlink > 1 && haskey(seenFiles, asptr(fi.Sys(), syscall.Stat_t).Ino)
+//@ func setUnixOpt
+//@   property C09 C11
+//@   requires stat != nil && fi != nil && isptr(fi.Sys(), syscall.Stat_t) && asptr(fi.Sys(), syscall.Stat_t) != nil
+//@   modifies *stat, seenFiles[*]
+//@   ensures owner: stat.Uid == asptr(fi.Sys(), syscall.Stat_t).Uid && stat.Gid == asptr(fi.Sys(), syscall.Stat_t).Gid
+//@   ensures untouched: stat.Path == old(stat.Path) && stat.Mode == old(stat.Mode) && stat.ModTime == old(stat.ModTime)
+//@   ensures dir: fi.IsDir() ==> stat.Linkname == old(stat.Linkname) && (forall k uint64 :: haskey(seenFiles, k) == old(haskey(seenFiles, k)) && seenFiles[k] == old(seenFiles[k]))
+//@   ensures device: !fi.IsDir() && (asptr(fi.Sys(), syscall.Stat_t).Mode & syscall.S_IFBLK != 0 || asptr(fi.Sys(), syscall.Stat_t).Mode & syscall.S_IFCHR != 0) ==> stat.Devmajor == int64((uint64(asptr(fi.Sys(), syscall.Stat_t).Rdev) >> 8) & 0xfff) && stat.Devminor == int64((uint64(asptr(fi.Sys(), syscall.Stat_t).Rdev) & 0xff) | ((uint64(asptr(fi.Sys(), syscall.Stat_t).Rdev) >> 12) & 0xfff00))
+//@   ensures later_member: !fi.IsDir() && old(specLinked(fi, seenFiles)) ==> stat.Linkname == old(seenFiles[asptr(fi.Sys(), syscall.Stat_t).Ino]) && stat.Size == 0 && (forall k uint64 :: haskey(seenFiles, k) == old(haskey(seenFiles, k)) && seenFiles[k] == old(seenFiles[k]))
+//@   ensures first_member: !fi.IsDir() && seenFiles != nil && !old(specLinked(fi, seenFiles)) ==> stat.Linkname == old(stat.Linkname) && haskey(seenFiles, asptr(fi.Sys(), syscall.Stat_t).Ino) && seenFiles[asptr(fi.Sys(), syscall.Stat_t).Ino] == path && (forall k uint64 :: k != asptr(fi.Sys(), syscall.Stat_t).Ino ==> haskey(seenFiles, k) == old(haskey(seenFiles, k)) && seenFiles[k] == old(seenFiles[k]))
+//@   ensures no_map: seenFiles == nil ==> stat.Linkname == old(stat.Linkname)
+
+//@ func loadXattr
+//@   property C09
+//@   requires stat != nil
+//@   modifies stat.Xattrs
+//@   effects LListxattr LGetxattr
+
+// the stat recorded for an entry: path as given, the lstat mode without the
+// socket bit, nanosecond mtime, size for non-directories, link target for symlinks
+//@ func mkstat
+//@   property C09 C01
+//@   requires fi != nil && isptr(fi.Sys(), syscall.Stat_t) && asptr(fi.Sys(), syscall.Stat_t) != nil
+//@   modifies inodemap[*]
+//@   effects Readlink LListxattr LGetxattr
+//@   ensures fresh: result1 == nil ==> result0 != nil && fresh(result0)
+//@   ensures path: result1 == nil ==> result0.Path == relpath
+//@   ensures mode: result1 == nil ==> result0.Mode == uint32(fi.Mode()) &^ uint32(os.ModeSocket)
+//@   ensures mtime: result1 == nil ==> result0.ModTime == fi.ModTime().UnixNano()
+//@   ensures size: result1 == nil && !fi.IsDir() ==> result0.Size == fi.Size()
+//@   ensures owner: result1 == nil ==> result0.Uid == asptr(fi.Sys(), syscall.Stat_t).Uid && result0.Gid == asptr(fi.Sys(), syscall.Stat_t).Gid
+//@   ensures symlink: result1 == nil && !fi.IsDir() && fi.Mode() & os.ModeSymlink != 0 ==> cnt(Readlink) == old(cnt(Readlink)) + 1 && arg(Readlink, 0) == path
+//@   ensures nolink: fi.IsDir() || fi.Mode() & os.ModeSymlink == 0 ==> cnt(Readlink) == old(cnt(Readlink))
+
+// the walk callback: the root itself is never reported; every other entry is
+// forwarded at most once (exactly once unless the context is done) under its
+// path relative to the root
+//@ func fs.Walk$1
+//@   property C09
+//@   requires fs != nil
+//@   requires skipdir_is_an_error: filepath.SkipDir != nil
+//@   effects WalkFn
+//@   ensures root_skipped: filepath.Rel#1(fs.root, path) == nil && filepath.Rel(fs.root, path) == "." ==> cnt(WalkFn) == old(cnt(WalkFn)) && retErr == nil
+//@   ensures atmost: cnt(WalkFn) <= old(cnt(WalkFn)) + 1
+//@   ensures relpath: cnt(WalkFn) > old(cnt(WalkFn)) ==> arg(WalkFn, 0) == filepath.Rel(fs.root, path) && arg(WalkFn, 0) != "." && arg(WalkFn, 2) == walkErr && (dirEntry == nil) == (arg(WalkFn, 1) == nil)
+//@   ensures forwarded: retErr == nil && !(filepath.Rel(fs.root, path) == ".") ==> cnt(WalkFn) == old(cnt(WalkFn)) + 1
+
+// composite filesystems: every stat and link name of a sub-walk is prefixed with
+// the sub-root's name (absolute symlink targets are re-rooted, relative ones kept)
+//@ func subDirFS.Walk$1
+//@   property C09
+//@   requires d != nil && d.Stat != nil
+//@   modifies type types.Stat
+//@   effects WalkFn
+//@   ensures passerr: err != nil ==> result == err && cnt(WalkFn) == old(cnt(WalkFn))
+//@   ensures atmost: cnt(WalkFn) <= old(cnt(WalkFn)) + 1
+//@   ensures prefixed: cnt(WalkFn) > old(cnt(WalkFn)) ==> arg(WalkFn, 0) == filepath.Join(d.Stat.Path, p) && isptr(arg(WalkFn, 1), DirEntryInfo) && asptr(arg(WalkFn, 1), DirEntryInfo).Stat != nil
+
+// sub-roots are sorted by name with a comparison that reads the slice being
+// sorted; names with a separator and duplicate names are rejected
+//@ func SubDirFS
+//@   property C09
+//@   modifies dirs[*]
